@@ -22,6 +22,8 @@ def run_property(pid: str, tier: str, repo_root: str, seed: int, only_key=None) 
         mod = importlib.import_module(f'sa.rules.{pid.lower()}')
         chk = Check(pid, tier, repo, seed, only_key=only_key)
         mod.run(chk)
+        from .rules import hygiene
+        hygiene.run(chk)
         if tier == 'thorough' and not only_key and os.environ.get('SA_NO_SELFTEST') != '1':
             from . import selftest
             selftest.run_for(chk)
